@@ -53,6 +53,7 @@ func ordinalKey(counts map[string]int, base string) string {
 func runC09(c *core.Ctx) {
 	defer func() {
 		c.Share(map[string]string{"R3.1": "R9.7", "R3.4": "R9.13"}, runC03)
+		c.Share(map[string]string{"R17.8": "R9.14"}, runC17) // an in-memory L1 that orders a far deadline before now loses the key before the expiry asked for
 		c.Share(map[string]string{"R1.21": "R9.12"}, runC01) // the back-fill of a get gives L1 "L2's remaining lifetime": the expiry decoded from the gete reply // get-and-touch under the shared lock races the back-fill of a get: L1 keeps the old expiry
 	}()
 	c.Rule("R9.1", "every Set/Touch/GAT request an in-scope orchestrator hands to L1 or L2 carries the Exptime of the client's request (or, in the get back-fill, the Exptime of the gete response received from L2); an unset Exptime means 'never expires'", 30)
